@@ -62,7 +62,9 @@ KINDS = [
 ]
 # fixed tree layout: (path, is_world)
 LAYOUT = [(['ha'], False), (['hb'], False), (['sub', 'hc'], False), (['sub', 'deep', 'hd'], False),
-          (['sub', 'hw'], True), (['lay', 'hk'], False), (['hv'], True)]
+          (['sub', 'hw'], True), (['lay', 'hk'], False), (['hv'], True),
+          # private-looking names (two leading underscores) are names like any other
+          (['__hp'], False), (['sub', '__hq'], False)]
 ACCESS = ['call', 'root_item', 'chained', 'enclosing', 'get_call', 'snap_attr', 'snap_item', 'snap_get']
 
 
@@ -136,13 +138,14 @@ class Run:
         self.cleared_between = [False] * n
         self.root = desper.ResourceMap()
         self.handles = []
-        ki = iter(case['kinds'])
+        import itertools
+        ki = itertools.cycle(case['kinds'])
         self.kind_name = []
         for ix, (path, is_world) in enumerate(LAYOUT):
             if is_world:
                 maker, name = desper.World, 'world'
             else:
-                name, maker = KINDS[next(ki) % len(KINDS)]
+                name, maker = KINDS[next(ki) % len(KINDS)]      # (the five generated kinds are cycled through)
             h = Counting(self, ix, maker)
             self.handles.append(h)
             self.kind_name.append(name)
